@@ -27,6 +27,8 @@ func main() {
 	dir := flag.String("dir", "", "tree to rewrite in place")
 	funcs := flag.Bool("funcs", false, "rename unexported functions and methods")
 	locals := flag.Bool("locals", false, "rename locals, parameters and receivers in hand-written files")
+	fields := flag.Bool("fields", false, "rename unexported struct fields declared in hand-written files")
+	typesF := flag.Bool("types", false, "rename unexported types, package-level variables and constants declared in hand-written files")
 	flag.Parse()
 	fset := token.NewFileSet()
 	cfg := &packages.Config{Mode: packages.LoadSyntax, Dir: *dir, Fset: fset, Tests: true,
@@ -37,12 +39,16 @@ func main() {
 	}
 	edits := map[string][]edit{}
 	renamedFuncs := map[string]string{}
+	renamedFields := map[string]string{}
+	renamedGlobals := map[string]string{}
+	yaccWords := map[string]bool{"token": true, "word": true, "type": true, "left": true, "right": true, "union": true, "start": true, "nonassoc": true, "prec": true, "error": true}
 	seenFile := map[string]bool{}
 	generated := func(fn string) bool {
 		b := filepath.Base(fn)
 		return b == "parser.go" || b == "arith.go"
 	}
 	keep := map[string]bool{"main": true, "init": true}
+	protected := map[string]bool{}
 	target := func(obj types.Object, fn string) (string, bool) {
 		if obj == nil || obj.Pkg() == nil || !strings.HasPrefix(obj.Pkg().Path(), "github.com/hattya/go.sh") {
 			return "", false
@@ -54,8 +60,37 @@ func main() {
 			}
 			// methods that satisfy unexported interface methods are renamed consistently (same name everywhere)
 			return o.Name() + "R", true
+		case *types.TypeName, *types.Const:
+			if !*typesF || o.Exported() || o.Parent() != o.Pkg().Scope() || strings.HasPrefix(o.Name(), "yy") || yaccWords[o.Name()] || len(o.Name()) < 3 {
+				return "", false
+			}
+			pos := fset.Position(o.Pos())
+			if generated(pos.Filename) || strings.HasSuffix(pos.Filename, ".y") {
+				return "", false
+			}
+			return o.Name() + "T", true
 		case *types.Var:
-			if !*locals || o.IsField() || o.Name() == "_" {
+			if !o.IsField() && o.Parent() == o.Pkg().Scope() {
+				if !*typesF || o.Exported() || strings.HasPrefix(o.Name(), "yy") || yaccWords[o.Name()] || len(o.Name()) < 3 {
+					return "", false
+				}
+				pos := fset.Position(o.Pos())
+				if generated(pos.Filename) || strings.HasSuffix(pos.Filename, ".y") {
+					return "", false
+				}
+				return o.Name() + "T", true
+			}
+			if o.IsField() {
+				if !*fields || o.Exported() || o.Name() == "_" || o.Embedded() || strings.HasPrefix(o.Name(), "yy") || protected[o.Name()] {
+					return "", false
+				}
+				pos := fset.Position(o.Pos())
+				if generated(pos.Filename) || strings.HasSuffix(pos.Filename, ".y") {
+					return "", false
+				}
+				return o.Name() + "F", true
+			}
+			if !*locals || o.Name() == "_" {
 				return "", false
 			}
 			if o.Parent() == o.Pkg().Scope() {
@@ -68,6 +103,16 @@ func main() {
 			return o.Name() + "_r", true
 		}
 		return "", false
+	}
+	// field names of structs declared in generated files are referred to in the
+	// grammar actions; a textual rename in the .y file cannot tell them apart
+	// from equally named fields elsewhere, so those names are left alone
+	for _, pk := range pkgs {
+		for id, obj := range pk.TypesInfo.Defs {
+			if v, ok := obj.(*types.Var); ok && v.IsField() && generated(fset.Position(id.Pos()).Filename) {
+				protected[v.Name()] = true
+			}
+		}
 	}
 	for _, pk := range pkgs {
 		if len(pk.Errors) > 0 {
@@ -102,6 +147,11 @@ func main() {
 					if _, isF := obj.(*types.Func); isF {
 						renamedFuncs[id.Name] = nw
 					}
+					if v, isV := obj.(*types.Var); isV && v.IsField() {
+						renamedFields[id.Name] = nw
+					} else if _, isF := obj.(*types.Func); !isF && obj.Parent() == obj.Pkg().Scope() {
+						renamedGlobals[id.Name] = nw
+					}
 				}
 				return true
 			})
@@ -130,6 +180,33 @@ func main() {
 			n++
 		}
 		os.WriteFile(fn, b, 0o644)
+	}
+	// grammar files: rename field references textually (selectors and composite-literal keys)
+	if *fields {
+		ys, _ := filepath.Glob(filepath.Join(*dir, "*", "*.y"))
+		for _, y := range ys {
+			b, _ := os.ReadFile(y)
+			s := string(b)
+			for old, nw := range renamedFields {
+				re := regexp.MustCompile(`\.` + regexp.QuoteMeta(old) + `([^A-Za-z0-9_(])`)
+				s = re.ReplaceAllString(s, "."+nw+"${1}")
+				re3 := regexp.MustCompile(`\.` + regexp.QuoteMeta(old) + `\.`)
+				s = re3.ReplaceAllString(s, "."+nw+".")
+			}
+			os.WriteFile(y, []byte(s), 0o644)
+		}
+	}
+	if *typesF {
+		ys, _ := filepath.Glob(filepath.Join(*dir, "*", "*.y"))
+		for _, y := range ys {
+			b, _ := os.ReadFile(y)
+			s := string(b)
+			for old, nw := range renamedGlobals {
+				re := regexp.MustCompile(`([^A-Za-z0-9_."'%<])` + regexp.QuoteMeta(old) + `([^A-Za-z0-9_"'>])`)
+				s = re.ReplaceAllString(s, "${1}"+nw+"${2}")
+			}
+			os.WriteFile(y, []byte(s), 0o644)
+		}
 	}
 	// grammar files: rename function references textually
 	if *funcs {
